@@ -227,11 +227,21 @@ def run_tcp_one(it):
                 if not passive:
                     net.raw_accept.pop(5002, None)
                     peer["lst"] = None
-            elif step == "disable":
-                dn = {"v": False}
+            elif step == "peer_close_fast":      # the peer closes; the next step meets the close handling half-way
+                peer["ep"].close()
+                if it.get("gap"):
+                    s.block(("gap",), it["gap"])
+                if not passive:
+                    net.raw_accept.pop(5002, None)
+                    peer["lst"] = None
+            elif step in ("disable", "disable_then_enable"):
+                dn = {"v": False, "at_return": None}
 
-                def dis(dn=dn):
+                def dis(dn=dn, again=(step == "disable_then_enable")):
                     proto.disable()
+                    dn["at_return"] = proto.connection_state.current.name      # the moment disable() returns
+                    if again:
+                        proto.enable()                                          # the application re-enables at once
                     dn["v"] = True
 
                 th = simrt.Thread(target=dis, name="app_disable")
@@ -239,16 +249,23 @@ def run_tcp_one(it):
                 if not wait(lambda: dn["v"], 60):
                     fail("disable-did-not-return")
                     return
-                if proto.connection_state.current.name != "NOT_CONNECTED":
+                if dn["at_return"] != "NOT_CONNECTED":
+                    rec["state_at_return"] = dn["at_return"]
+                    fail("not-NOT_CONNECTED-when-disable-returned")
+                    return
+                if step == "disable" and proto.connection_state.current.name != "NOT_CONNECTED":
                     fail("not-NOT_CONNECTED-after-disable")
                     return
+                if step == "disable_then_enable":
+                    s.advance(0.3)
             elif step == "wait":
                 s.advance(it.get("wait", 1.0))
             else:
                 raise ValueError(step)
 
     s = simrt.run(main, seed=it["seed"], policy=it["policy"], switch_prob=0.3, max_vtime=1e5, wall_timeout=120,
-                  line_funcs=[tc.TcpConnection._start_receiver, tc.TcpConnection.disconnect, tsc.TcpServerConnection.disable,
+                  line_funcs=[tc.TcpConnection._start_receiver, tc.TcpConnection.disconnect, tc.TcpConnection._TcpConnection__receiver_thread,
+                              tsc.TcpServerConnection.disable,
                               tcc.TcpClientConnection.disable, tcc.TcpClientConnection._TcpClientConnection__connect_thread,
                               tcc.TcpClientConnection._TcpClientConnection__connect, tcc.TcpClientConnection._TcpClientConnection__idle,
                               tsc.TcpServerConnection._TcpServerConnection__server_thread],
@@ -273,6 +290,11 @@ TCP_SCRIPTS = {
     "loss-partial-reconnect": ["enable", "connect", "select", "partial", "peer_close", "wait", "connect", "select", "disable"],
     "disable-enable-cycle": ["enable", "connect", "select", "disable", "enable", "connect", "select", "disable"],
     "idle-disable-enable": ["enable", "disable", "enable", "connect", "select", "disable"],
+    "loss-and-disable-at-once": ["enable", "connect", "select", "peer_close_fast", "disable", "enable", "connect", "select", "disable"],
+    "loss-partial-and-disable-at-once": ["enable", "connect", "select", "partial", "peer_close_fast", "disable", "enable", "connect", "select",
+                                         "disable"],
+    "loss-and-disable-enable-at-once": ["enable", "connect", "select", "peer_close_fast", "disable_then_enable", "connect", "select", "disable"],
+    "disable-enable-at-once-while-selected": ["enable", "connect", "select", "disable_then_enable", "connect", "select", "disable"],
     "enable-disable-at-once": ["enable_fast", "disable"],
     "enable-disable-at-once-peer-listening": ["listen_peer", "enable_fast", "disable"],
     "enable-disable-at-once-then-again": ["listen_peer", "enable_fast", "disable", "enable", "connect", "select", "disable"],
@@ -373,7 +395,7 @@ def run(ctx: Ctx):
             for pol in (["fifo", "pct", "pct", "random"] if ctx.quick else ["fifo"] + ["pct"] * 12 + ["random"] * 4):
                 tid += 1
                 titems.append({"id": tid, "side": side, "name": name, "script": script, "policy": pol, "wait": rng.choice([0.3, 1.0, 11.0]),
-                               "seed": rng.randrange(1 << 30)})
+                               "gap": rng.choice([0, 0, 0.001, 0.003, 0.01, 0.25]), "seed": rng.randrange(1 << 30)})
     trecs = [r_ for batch in pmap(run_tcp_batch, chunks(titems, 28)) for r_ in batch]
     ctx.traces += len(trecs)
     ctx.evaluations += len(trecs)
